@@ -444,7 +444,8 @@ TYPE_INTROSPECTION_FIELD = Field(
     __Type__,
     description="Request the type information of a single type.",
     args=[Argument("name", NonNullType(String))],
-    resolver=lambda p, c, info, **args: info.schema.get_type(args["name"]),
+    # Unknown types resolve to null instead of failing the whole query.
+    resolver=lambda p, c, info, **args: info.schema.types.get(args["name"]),
 )
 
 
